@@ -455,3 +455,184 @@ example : ∃ bs, bindsOfRowsR "data".toList exKs [] = .ok bs ∧ bs.length = 4 
     rw [h] at this; cases this
 
 end Pyxv.C05
+
+/-! ## noninterference for the composed model -/
+
+namespace Pyxv.C05
+open Pyxv Pyxv.Binds
+
+theorem renderAllR_append (els : List Refs.Chain) : ∀ (x y : List ElemC),
+    renderAllR els (x ++ y) =
+      match renderAllR els x, renderAllR els y with
+      | some bx, some b => some (bx ++ b)
+      | _, _ => none := by
+  intro x y
+  induction x with
+  | nil => simp only [List.nil_append, renderAllR]; cases renderAllR els y <;> rfl
+  | cons e x ih =>
+    simp only [List.cons_append]
+    rw [renderAllR, ih, renderAllR]
+    cases xmlBindR els e with
+    | none => rfl
+    | some ob =>
+      cases renderAllR els x with
+      | none => rfl
+      | some bx =>
+        cases renderAllR els y with
+        | none => rfl
+        | some b => cases ob <;> rfl
+
+/-- the bind list of a single element: empty or one bind on the element's path -/
+theorem renderAllR_single (els : List Refs.Chain) (e : ElemC) (m : List Bind) (h : renderAllR els [e] = some m) :
+    m.length ≤ 1 ∧ ∀ b ∈ m, b.path = e.chain.path := by
+  unfold renderAllR at h
+  cases hx : xmlBindR els e with
+  | none => rw [hx] at h; cases h
+  | some ob =>
+    rw [hx] at h
+    simp only [renderAllR, Option.some.injEq] at h
+    subst h
+    cases ob with
+    | none => simp
+    | some b =>
+      refine ⟨by simp, ?_⟩
+      intro b' hb'
+      simp only [List.mem_singleton] at hb'
+      subst hb'
+      exact xmlBindR_path els e b' hx
+
+/-- **noninterference_refs.**  In the composed model, replacing one element by another on the same chain (same name, same
+kind, same ancestors: any change of its logic cells, type-table entry or trigger) changes no other element's bind:
+the two bind lists are `ba ++ m ++ bb` and `ba ++ m' ++ bb` with `m`, `m'` the (at most one) bind of the edited node.
+The reference table `allChains` depends on names and kinds only, so every other row's substituted values stay the same. -/
+theorem noninterference_refs (root : Str) (metas : List Q) (A B tail : List ElemC) (e e' : ElemC) (hc : e'.chain = e.chain)
+    (bs bs' : List Bind)
+    (h : renderAllR (allChains root (A ++ e :: B) metas) (A ++ e :: B ++ tail) = some bs)
+    (h' : renderAllR (allChains root (A ++ e' :: B) metas) (A ++ e' :: B ++ tail) = some bs') :
+    ∃ ba m m' bb, bs = ba ++ m ++ bb ∧ bs' = ba ++ m' ++ bb ∧ m.length ≤ 1 ∧ m'.length ≤ 1 ∧
+      (∀ b ∈ m, b.path = e.chain.path) ∧ (∀ b ∈ m', b.path = e.chain.path) := by
+  have hels : allChains root (A ++ e' :: B) metas = allChains root (A ++ e :: B) metas := by
+    simp [allChains, hc]
+  rw [hels] at h'
+  generalize allChains root (A ++ e :: B) metas = els at h h'
+  have e1 : A ++ e :: B ++ tail = A ++ ([e] ++ (B ++ tail)) := by simp
+  have e2 : A ++ e' :: B ++ tail = A ++ ([e'] ++ (B ++ tail)) := by simp
+  rw [e1, renderAllR_append, renderAllR_append] at h
+  rw [e2, renderAllR_append, renderAllR_append] at h'
+  cases ha : renderAllR els A with
+  | none => simp [ha] at h
+  | some ba =>
+    cases hb : renderAllR els (B ++ tail) with
+    | none => rw [ha, hb] at h; cases hm : renderAllR els [e] <;> simp [hm] at h
+    | some bb =>
+      cases hm : renderAllR els [e] with
+      | none => simp [ha, hb, hm] at h
+      | some m =>
+        cases hm' : renderAllR els [e'] with
+        | none => simp [ha, hb, hm'] at h'
+        | some m' =>
+          simp only [ha, hb, hm, Option.some.injEq] at h
+          simp only [ha, hb, hm', Option.some.injEq] at h'
+          refine ⟨ba, m, m', bb, by rw [← h, List.append_assoc], by rw [← h', List.append_assoc],
+            (renderAllR_single els e m hm).1, (renderAllR_single els e' m' hm').1, (renderAllR_single els e m hm).2, ?_⟩
+          intro b hb'
+          rw [← hc]
+          exact (renderAllR_single els e' m' hm').2 b hb'
+
+end Pyxv.C05
+
+namespace Pyxv.C05
+open Pyxv Pyxv.Binds
+
+section NIExample
+def niA : List ElemC :=
+  [mkElemC "data".toList [] .q (exQ "t" none),
+   mkElemC "data".toList [] .rep { name := "r".toList, tt := none, bind := none },
+   mkElemC "data".toList [("r".toList, true)] .q (exQ "a" none)]
+def niE : ElemC := mkElemC "data".toList [("r".toList, true)] .q (exQ "b" (some [("relevant".toList, .s "${a} > 1".toList)]))
+def niE' : ElemC := mkElemC "data".toList [("r".toList, true)] .q (exQ "b" (some [("constraint".toList, .s ". < ${t}".toList)]))
+def niB : List ElemC := [mkElemC "data".toList [("r".toList, true)] .q (exQ "c" (some [("calculate".toList, .s "${b} + ${a}".toList)]))]
+
+-- the hypotheses of `noninterference_refs` are satisfiable: both forms render, the edited row keeps its chain, and the
+-- other rows' binds contain references (to the edited row, too)
+example : niE'.chain = niE.chain ∧
+    (renderAllR (allChains "data".toList (niA ++ niE :: niB) []) (niA ++ niE :: niB ++ [instanceIDC "data".toList])).isSome = true ∧
+    (renderAllR (allChains "data".toList (niA ++ niE' :: niB) []) (niA ++ niE' :: niB ++ [instanceIDC "data".toList])).isSome = true := by
+  decide +kernel
+end NIExample
+
+end Pyxv.C05
+
+namespace Pyxv.C05
+open Pyxv Pyxv.Binds
+
+/-- an accepted form of the composed model: its binds are `renderAllR` over the walked elements + the meta block -/
+theorem bindsOfRowsR_ok (root : Str) (ks : List RK) (metas : List Q) (bs : List Bind) {extra : List Str}
+    (h : bindsOfRowsR root ks metas extra = .ok bs) :
+    ∃ es, walkC root [] ks = some es ∧
+      renderAllR (allChains root es metas) (es ++ (metas.map (metaElemC root) ++ [instanceIDC root])) = some bs := by
+  unfold bindsOfRowsR at h
+  simp only at h
+  split at h
+  · cases h
+  split at h
+  · cases h
+  split at h
+  · cases h
+  split at h
+  · cases h
+  next es hw =>
+  split at h
+  · cases h
+  next bs' hr =>
+  split at h
+  case isFalse => cases h
+  simp only [Out.ok.injEq] at h
+  subst h
+  exact ⟨es, hw, hr⟩
+
+/-- **noninterference_form_refs.**  Two row lists accepted by the composed model whose walked elements differ in one
+element only, on the same chain (an edit of that row's logic cells / type that keeps its name, kind and position):
+every other node's bind — rows before, rows after, the meta block — is identical, although other rows may refer to the
+edited one. -/
+theorem noninterference_form_refs (root : Str) (ks ks' : List RK) (metas : List Q) (A B : List ElemC) (e e' : ElemC)
+    (hc : e'.chain = e.chain)
+    (hw : walkC root [] ks = some (A ++ e :: B)) (hw' : walkC root [] ks' = some (A ++ e' :: B))
+    {extra : List Str} (bs bs' : List Bind)
+    (h : bindsOfRowsR root ks metas extra = .ok bs) (h' : bindsOfRowsR root ks' metas extra = .ok bs') :
+    ∃ ba m m' bb, bs = ba ++ m ++ bb ∧ bs' = ba ++ m' ++ bb ∧ m.length ≤ 1 ∧ m'.length ≤ 1 ∧
+      (∀ b ∈ m, b.path = e.chain.path) ∧ (∀ b ∈ m', b.path = e.chain.path) := by
+  obtain ⟨es, hes, hr⟩ := bindsOfRowsR_ok root ks metas bs h
+  obtain ⟨es', hes', hr'⟩ := bindsOfRowsR_ok root ks' metas bs' h'
+  rw [hw] at hes
+  rw [hw'] at hes'
+  cases hes
+  cases hes'
+  exact noninterference_refs root metas A B _ e e' hc bs bs' hr hr'
+
+end Pyxv.C05
+
+namespace Pyxv.C05
+open Pyxv Pyxv.Binds
+
+section NIFormExample
+/-- `exKs` with the logic cells of row `b` replaced -/
+def exKs' : List RK :=
+  [.qs [exQ "t" none],
+   .begin_ true [] { name := "r".toList, tt := none, bind := none },
+   .qs [exQ "a" none],
+   .qs [exQ "b" (some [("required".toList, .s "true()".toList)])],
+   .end_ true]
+
+def exB : ElemC := mkElemC "data".toList [("r".toList, true)] .q
+  (exQ "b" (some [("relevant".toList, .s "${a} > 1".toList), ("constraint".toList, .s ". < ${t}".toList)]))
+def exB' : ElemC := mkElemC "data".toList [("r".toList, true)] .q (exQ "b" (some [("required".toList, .s "true()".toList)]))
+
+-- the hypotheses of `noninterference_form_refs` hold for `exKs` / `exKs'` (both accepted, one element differs, same chain)
+example : walkC "data".toList [] exKs = some (niA ++ exB :: []) ∧ walkC "data".toList [] exKs' = some (niA ++ exB' :: []) ∧
+    exB'.chain = exB.chain ∧
+    (match bindsOfRowsR "data".toList exKs [], bindsOfRowsR "data".toList exKs' [] with | .ok _, .ok _ => true | _, _ => false) = true :=
+  ⟨rfl, rfl, rfl, by decide +kernel⟩
+end NIFormExample
+
+end Pyxv.C05
